@@ -4,7 +4,13 @@
 //   C01  results are sentences of the active grammar
 //   C03  segmentation tiles the utterance, agrees with hypothesis and score
 #include "common/decode.h"
+#include "common/json.h"
 #include "common/latalg.h"
+
+extern "C" {
+#include <soundswallower/alignment.h>
+size_t __sanitizer_get_allocated_size(const volatile void *p);
+}
 
 #include <cstring>
 
@@ -13,7 +19,8 @@ using namespace dec;
 
 namespace {
 
-decoder_t *gDec[2] = {nullptr, nullptr};
+decoder_t *gDec[5] = {nullptr, nullptr, nullptr, nullptr, nullptr};
+int gFrate[5] = {100, 100, 100, 50, 125};
 bool c_probeKnown = false; // set per case: assert listed known classes on a small fraction of cases
 
 struct Case {
@@ -24,13 +31,29 @@ struct Case {
   std::string audioDesc;
   std::vector<Chunk> chunks;
   bool fullUtt = false;
+  int jsonLevel = 0;
+  double jsonStart = 0;
 };
 
-Case genCase(Choices &c, int queryPct) {
+const std::vector<std::string> &hostileWords();
+std::string fmt3(double x);
+
+Case genCase(Choices &c, int queryPct, bool forJson = false) {
   Case k;
   k.decIdx = c.coin(30) ? 1 : 0;
+  if (forJson) k.decIdx = (int)c.weighted({2, 1, 5, 2, 2});
   k.sc = genSearchCfg(c);
-  k.gram = genGrammar(c);
+  if (forJson && k.decIdx >= 2) k.gram = genGrammar(c, 0, 3, 4, &hostileWords());
+  else k.gram = genGrammar(c);
+  if (forJson) {
+    k.jsonLevel = (int)c.weighted({3, 2, 2});
+    switch (c.weighted({3, 3, 1, 1})) {
+    case 0: k.jsonStart = 0; break;
+    case 1: k.jsonStart = (double)c.range(0, 999999) + (double)c.range(0, 999) / 1000.0; break;
+    case 2: k.jsonStart = 1e-9; break;
+    default: k.jsonStart = -(double)c.range(1, 5000) / 7.0; break;
+    }
+  }
   long N;
   switch (c.weighted({1, 1, 3, 8, 2})) {
   case 0: N = 0; break;
@@ -51,7 +74,8 @@ Case genCase(Choices &c, int queryPct) {
 
 std::string caseDesc(const Case &k) {
   std::ostringstream o;
-  o << "dec=" << (k.decIdx ? "compallsen" : "default") << " " << k.sc.str() << " | " << k.gram.desc << " | N=" << k.audio.size() << " "
+  static const char *DN[] = {"default", "compallsen", "hostile-dict", "hostile-dict+frate50", "hostile-dict+frate125"};
+  o << "dec=" << DN[k.decIdx] << (k.jsonLevel || k.jsonStart != 0 ? " json(level=" + std::to_string(k.jsonLevel) + ",start=" + fmt3(k.jsonStart) + ")" : "") << " " << k.sc.str() << " | " << k.gram.desc << " | N=" << k.audio.size() << " "
     << k.audioDesc << (k.fullUtt ? " full_utt" : "") << " chunks=" << chunksStr(k.chunks);
   return o.str();
 }
@@ -482,10 +506,14 @@ Verdict oracleC12(decoder_t *d, lattice_t *dag, bool final, Ctx &ctx) {
 }
 
 
+Verdict oracleC14(decoder_t *d, int frate, const Obs &o, double start, int level, bool final, Ctx &ctx);
+std::string fmt3(double x);
+
 Verdict judge(decoder_t *d, const Case &k, const Obs &o, bool final, long T, const fsa::Fsa &gplus, const fsa::Fsa &gEps, int which, Ctx &ctx) {
   switch (which) {
   case 0: return oracleC01(d, k, o, final, gplus, ctx);
   case 1: return oracleC03(d, o, final, T, ctx);
+  case 4: return oracleC14(d, gFrate[k.decIdx], o, k.jsonStart, k.jsonLevel, final, ctx);
   default: {
     lattice_t *dag = decoder_lattice(d);
     if (!dag) {
@@ -498,11 +526,120 @@ Verdict judge(decoder_t *d, const Case &k, const Obs &o, bool final, long T, con
   }
 }
 
+
+// ------------------------------------------------------------------ C14: JSON
+std::string fmt3(double x) {
+  char b[64];
+  snprintf(b, sizeof b, "%.3f", x);
+  return b;
+}
+
+const std::vector<std::string> &hostileWords() {
+  static std::vector<std::string> v = {"say\"x", "back\\slash", "q\"\\\"uote", "caf\xc3\xa9", "\xe6\x97\xa5\xe6\x9c\xac", std::string(200, 'x'),
+                                       "a/b", "ctl\x01x", "del\x7fx", "{brace}", "'apos", "\\", "\"", "\\n", "tab\\t"};
+  return v;
+}
+
+Verdict checkEntry(const json::Value &v, const std::string &b, const std::string &dd, const std::string &p, const std::string &t, const std::string &where) {
+  PBT_CHECK(v.t == json::Value::OBJ, "json-structure", where << " is not an object");
+  const json::Value *jb = v.get("b"), *jd = v.get("d"), *jp = v.get("p"), *jt = v.get("t");
+  PBT_CHECK(jb && jd && jp && jt, "json-structure", where << " lacks one of b,d,p,t");
+  PBT_CHECK(jb->t == json::Value::NUM && jd->t == json::Value::NUM && jp->t == json::Value::NUM && jt->t == json::Value::STR, "json-structure", where << ": wrong field types");
+  PBT_CHECK(jt->s == t, "json-text-field", where << ": t='" << jt->s << "' but the iterator says '" << t << "'");
+  PBT_CHECK(jb->s == b, "json-start-field", where << ": b=" << jb->s << " but frame index / frame rate + offset gives " << b);
+  PBT_CHECK(jd->s == dd, "json-duration-field", where << ": d=" << jd->s << " expected " << dd);
+  PBT_CHECK(jp->s == p, "json-probability-field", where << ": p=" << jp->s << " expected " << p);
+  return Verdict::pass();
+}
+
+Verdict oracleC14(decoder_t *d, int frate, const Obs &o, double start, int level, bool final, Ctx &ctx) {
+  const char *when = final ? "final" : "partial";
+  alignment_t *al = level > 0 ? decoder_alignment(d) : NULL;
+  const char *js = decoder_result_json(d, start, level);
+  if (level > 0 && al == NULL) {
+    PBT_CHECK(js == NULL, "json-without-alignment", when << ": level " << level << " JSON returned although decoder_alignment is NULL");
+    ctx.label("json:NULL(no-alignment)");
+    return Verdict::pass();
+  }
+  PBT_CHECK(js != NULL, "json-null", when << ": decoder_result_json returned NULL (level " << level << ")");
+  std::string text(js);
+  size_t alloc = __sanitizer_get_allocated_size(d->json_result);
+  PBT_CHECK(text.size() + 1 == alloc, "json-buffer-length", when << ": JSON is " << text.size() << " bytes + NUL in a buffer of " << alloc);
+  PBT_CHECK(!text.empty() && text.back() == '\n', "json-newline", when << ": JSON line does not end in a newline");
+  PBT_CHECK(text.find('\n') == text.size() - 1, "json-newline", when << ": JSON contains a newline before its end: " << text);
+  std::string body = text.substr(0, text.size() - 1);
+  json::Parser ps(body);
+  json::Value root;
+  bool ok = ps.value(root) && (ps.ws(), ps.i == body.size());
+  if (!ok) {
+    bool hostile = false;
+    for (auto &s : o.segs)
+      for (auto &h : hostileWords())
+        if (s.word == h && (h.find('"') != std::string::npos || h.find('\\') != std::string::npos || h.find('\x01') != std::string::npos)) hostile = true;
+    return Verdict::fail(hostile ? "json-invalid:unescaped-string" : "json-invalid", Msg() << when << ": not valid JSON (" << (ps.err.empty() ? "trailing data" : ps.err) << "): " << body);
+  }
+  logmath_t *lm = decoder_logmath(d);
+  std::string hyp = o.hasHyp ? o.hyp : "";
+  Verdict v = checkEntry(root, fmt3(start), fmt3((double)o.nFrames / frate), fmt3(logmath_exp(lm, decoder_prob(d))), hyp, "top level");
+  if (!v.ok) return v;
+  const json::Value *w = root.get("w");
+  PBT_CHECK(w && w->t == json::Value::ARR, "json-structure", "top level lacks the w list");
+  if (level == 0) {
+    PBT_CHECK(w->arr.size() == o.segs.size(), "json-word-count", when << ": " << w->arr.size() << " entries in w, " << o.segs.size() << " segments from the iterator");
+    for (size_t i = 0; i < o.segs.size(); ++i) {
+      auto &s = o.segs[i];
+      v = checkEntry(w->arr[i], fmt3(start + (double)s.sf / frate), fmt3((double)(s.ef + 1 - s.sf) / frate), fmt3(logmath_exp(lm, s.prob)), s.word, "w[" + std::to_string(i) + "]");
+      if (!v.ok) return v;
+      PBT_CHECK(w->arr[i].get("w") == nullptr, "json-structure", "level 0 entry has a nested list");
+    }
+  } else {
+    size_t wi = 0;
+    for (alignment_iter_t *it = alignment_words(al); it; it = alignment_iter_next(it), ++wi) {
+      PBT_CHECK(wi < w->arr.size(), "json-word-count", when << ": fewer word entries than alignment words");
+      int st = 0, du = 0;
+      int sc = alignment_iter_seg(it, &st, &du);
+      std::string wh = "w[" + std::to_string(wi) + "]";
+      v = checkEntry(w->arr[wi], fmt3(start + (double)st / frate), fmt3((double)du / frate), fmt3(logmath_exp(lm, sc)), alignment_iter_name(it), wh);
+      if (!v.ok) return v;
+      const json::Value *pw = w->arr[wi].get("w");
+      PBT_CHECK(pw && pw->t == json::Value::ARR, "json-structure", wh << " lacks the phone list");
+      size_t pi = 0;
+      for (alignment_iter_t *pit = alignment_iter_children(it); pit; pit = alignment_iter_next(pit), ++pi) {
+        PBT_CHECK(pi < pw->arr.size(), "json-word-count", wh << ": fewer phone entries than alignment phones");
+        sc = alignment_iter_seg(pit, &st, &du);
+        std::string ph = wh + ".w[" + std::to_string(pi) + "]";
+        v = checkEntry(pw->arr[pi], fmt3(start + (double)st / frate), fmt3((double)du / frate), fmt3(logmath_exp(lm, sc)), alignment_iter_name(pit), ph);
+        if (!v.ok) return v;
+        const json::Value *sw = pw->arr[pi].get("w");
+        if (level == 1) PBT_CHECK(sw == nullptr, "json-structure", ph << " has a state list at level 1");
+        else {
+          PBT_CHECK(sw && sw->t == json::Value::ARR, "json-structure", ph << " lacks the state list at level 2");
+          size_t si = 0;
+          for (alignment_iter_t *sit = alignment_iter_children(pit); sit; sit = alignment_iter_next(sit), ++si) {
+            PBT_CHECK(si < sw->arr.size(), "json-word-count", ph << ": fewer state entries than alignment states");
+            sc = alignment_iter_seg(sit, &st, &du);
+            v = checkEntry(sw->arr[si], fmt3(start + (double)st / frate), fmt3((double)du / frate), fmt3(logmath_exp(lm, sc)), alignment_iter_name(sit), ph + ".w[" + std::to_string(si) + "]");
+            if (!v.ok) return v;
+            PBT_CHECK(sw->arr[si].get("w") == nullptr, "json-structure", "state entry has a nested list");
+          }
+          PBT_CHECK(si == sw->arr.size(), "json-word-count", ph << ": more state entries than alignment states");
+        }
+      }
+      PBT_CHECK(pi == pw->arr.size(), "json-word-count", wh << ": more phone entries than alignment phones");
+    }
+    PBT_CHECK(wi == w->arr.size(), "json-word-count", when << ": more word entries than alignment words");
+  }
+  ctx.label("json:level" + std::to_string(level));
+  ctx.labelIf(w->arr.empty(), "json:empty-word-list");
+  if (w->arr.size() >= 2) ctx.nontrivial = true;
+  return Verdict::pass();
+}
+
 // --------------------------------------------------------------------- runner
-enum Which { W_C01 = 0, W_C03 = 1, W_C11 = 2, W_C12 = 3 };
+enum Which { W_C01 = 0, W_C03 = 1, W_C11 = 2, W_C12 = 3, W_C14 = 4 };
 
 Verdict runCase(Choices &c, Ctx &ctx, Which which) {
-  Case k = genCase(c, which == W_C01 ? 25 : which == W_C03 ? 15 : 20);
+  Case k = genCase(c, which == W_C01 ? 25 : which == W_C03 ? 15 : 20, which == W_C14);
   c_probeKnown = c.coin(4);
   ctx.describe(caseDesc(k));
   decoder_t *d = gDec[k.decIdx];
@@ -578,6 +715,7 @@ Verdict propC01(Choices &c, Ctx &ctx) { return runCase(c, ctx, W_C01); }
 Verdict propC03(Choices &c, Ctx &ctx) { return runCase(c, ctx, W_C03); }
 Verdict propC11(Choices &c, Ctx &ctx) { return runCase(c, ctx, W_C11); }
 Verdict propC12(Choices &c, Ctx &ctx) { return runCase(c, ctx, W_C12); }
+Verdict propC14(Choices &c, Ctx &ctx) { return runCase(c, ctx, W_C14); }
 
 void initDecode() {
   err_set_loglevel(ERR_FATAL);
@@ -586,7 +724,14 @@ void initDecode() {
   DecCfg b;
   b.compallsen = true;
   gDec[1] = makeDecoder(b);
-  if (!gDec[0] || !gDec[1]) {
+  DecCfg h;
+  h.dict = verifDir() + "/data/hostile.dic";
+  gDec[2] = makeDecoder(h);
+  h.frate = 50;
+  gDec[3] = makeDecoder(h);
+  h.frate = 125;
+  gDec[4] = makeDecoder(h);
+  if (!gDec[0] || !gDec[1] || !gDec[2] || !gDec[3] || !gDec[4]) {
     fprintf(stderr, "decoder_init failed in harness init\n");
     exit(2);
   }
@@ -602,6 +747,7 @@ const PropDef kProps[] = {
     {"C03", propC03, true, 60000, initDecode},
     {"C11", propC11, true, 20000, initDecode},
     {"C12", propC12, true, 20000, initDecode},
+    {"C14", propC14, true, 30000, initDecode},
     {nullptr, nullptr, false, 0, nullptr},
 };
 }
